@@ -16,7 +16,10 @@ SC = dict(unit="mfsd_rw_u.c", file="mfhdf/src/mfsd.c", objbits=8, cex_unwind=10,
           trusted=["NC_check_id", "HCget_config_info", "Hendaccess", "Hnewref", "NC_findattr", "NC_copy_arrayvals",
                    "DFKgetPNSC/DFKisnativeNT/DFKislitendNT (reproduced)", "DFKconvert(stub: arbitrary output)",
                    "HMCcreate(stub: records what it gets)"])
-ob("SDsetchunk_fill", "C04", entry="h_SDsetchunk", enforce="SDsetchunk", mode="bounded",
+ob("SDsetchunk_fill_r2", "C04", entry="h_SDsetchunk", enforce="SDsetchunk", mode="bounded",
+   bound="rank 0..2, chunk lengths <= 128; all number types of size 1/2/4/8, standard/native/little-endian, user-set or default "
+         "fill value, all three chunk-definition layouts", unwind=10, defines=["MAXR=2"], **SC)
+ob("SDsetchunk_fill", "C04", entry="h_SDsetchunk", enforce="SDsetchunk", mode="bounded", tier="thorough",
    bound="rank 0..4, chunk lengths <= 128 (element count of a chunk fits int32); all number types of size 1/2/4/8, "
          "standard/native/little-endian, user-set or default fill value, all three chunk-definition layouts",
    unwind=10, defines=["MAXR=4"], **SC)
@@ -45,9 +48,14 @@ for w in (4, 8, 2, 1):
        bound=f"element size {w}, 1..4 elements per call, byte offset any multiple of {w} up to 4 MB (<= 5 fill chunks of the "
              "real MAX_SIZE), variable length up to 8 MB (<= 9 trailing chunks), data_offset == 0, no allocation failure",
        replace=["hdf_get_vp_aid"], unwind=24, cex_unwind=24, defines=[f"C03_W={w}"],
-       flags=["--no-malloc-may-fail"], gi_flags=["--no-malloc-may-fail"], timeout=900, trusted=PIO_TRUST,
-       tier="quick" if w == 4 else "thorough", **{**PIO, "objbits": 11})
-# (1) the odometer
+       flags=["--no-malloc-may-fail"], gi_flags=["--no-malloc-may-fail"], timeout=1500, trusted=PIO_TRUST,
+       tier="thorough", **PIO)
+# quick-tier stand-in: offsets up to 1.2 MB (1 or 2 leading chunks, up to 3 trailing chunks)
+ob("NCvdata_firstwrite_q", "C03", entry="h_NCvdata_firstwrite", enforce="hdf_xdr_NCvdata", mode="bounded",
+   bound="element size 4, 1..4 elements per call, byte offset any multiple of 4 up to 1.2 MB (<= 2 fill chunks of the real MAX_SIZE), "
+         "variable length up to 2.4 MB, data_offset == 0, no allocation failure",
+   replace=["hdf_get_vp_aid"], unwind=24, cex_unwind=24, defines=["C03_W=4", "FW_MAXOFF=1200000L"],
+   flags=["--no-malloc-may-fail"], gi_flags=["--no-malloc-may-fail"], timeout=900, trusted=PIO_TRUST, **PIO)
 # (1) the odometer.  NCcoordck and NC_varoffset are replaced inside NCvario by contracts proved here (unrolled rank <= 3).
 CK3 = dict(mode="bounded", defines=["PGIO_VARIO", "C03_W=4"], flags=["--no-malloc-may-fail"], gi_flags=["--no-malloc-may-fail"],
            trusted=PIO_TRUST, **{**PIO, "objbits": 11})
@@ -65,17 +73,20 @@ def va_unwindset(R):
     return ",".join(f"{k}:{v}" for k, v in d.items())
 
 
-def VA(R):
+def VA(R, skip):
     return dict(entry="h_NCvario", mode="bounded",
                 replace=["hdf_xdr_NCvdata", "H4_NCcoordck", "NC_varoffset"],
                 flags=["--no-malloc-may-fail", "--unwindset", va_unwindset(R)], gi_flags=["--no-malloc-may-fail"],
-                unwind=16, cex_unwind=16, defines=["PGIO_VARIO", f"MAXR={R}", "C03_W=4"],
+                unwind=16, cex_unwind=16, defines=["PGIO_VARIO", f"MAXR={R}", "C03_W=4"] + (["VA_SKIP_FINDINGS"] if skip else []),
                 bound=f"rank 1..{R}, extents <= 4, edges 0..3, start -1..5, numrecs <= 4, element size 4; fixed-size and record "
-                      "variables, read and write, any file flags",
+                      "variables, read and write, any file flags" + ("; WITHOUT the three clauses the tree as found violates" if skip else ""),
                 trusted=PIO_TRUST + ["hdf_xdr_NCvdata (run logger: contract preconditions are the checks)",
                                      "H4_NCcoordck, NC_varoffset (replaced by the contracts proved in NCcoordck_r3 / NC_varoffset_r3)"],
                 **{**PIO, "objbits": 11})
 
 
-ob("NCvario_r2", "C03", timeout=900, **VA(2))
-ob("NCvario_r3", "C03", timeout=3000, tier="thorough", **VA(3))
+# all clauses of the task: FAILS on the tree as found (three defect candidates, see the unit / report)
+ob("NCvario_r2", "C03", timeout=900, tier="thorough", **VA(2, False))
+# the clauses the tree satisfies: in-range decomposition (b), -1 for every out-of-range request, no cell outside the region
+ob("NCvario_r2_core", "C03", timeout=900, tier="thorough", **VA(2, True))
+ob("NCvario_r3_core", "C03", timeout=3000, tier="thorough", **VA(3, True))
